@@ -658,6 +658,28 @@ def deriv_builder(T, rng):
     return ufl.grad(g.u(d))[a] * g.u(1) + g.u(d).dx(b), ()
 
 
+def deriv_depth(e):
+    """largest number of derivative operators along a path of e (the jets of the mirror need that order)."""
+    memo = {}
+
+    def go(n):
+        k = id(n)
+        if k not in memo:
+            d = max((go(o) for o in n.ufl_operands), default=0)
+            memo[k] = d + (1 if type(n).__name__ in DERIVATIVE_TYPES else 0)
+        return memo[k]
+    return go(e)
+
+
+def abs_with_free_index_under_derivative(e):
+    for n in nodes(e):
+        if type(n).__name__ in DERIVATIVE_TYPES:
+            for m in nodes(n.ufl_operands[0]):
+                if type(m).__name__ == "Abs" and m.ufl_operands[0].ufl_free_indices:
+                    return True
+    return False
+
+
 def differentiated_kinds(e):
     """Types of the nodes that stand under a derivative operator in the (unexpanded) expression."""
     out = collections.Counter()
@@ -776,9 +798,17 @@ def run_case(idx, seed, depth, exact_only=False, allow_known=True, build=None):
                 continue          # the CONSTRUCTORS rejected the draw (not an evaluation)
         else:
             e, comp = T.f[0] * T.f[1], ()
+    env.order = max(3, deriv_depth(e))      # before any terminal field is drawn
     c = Case()
     c.idx, c.seed, c.e, c.comp, c.T, c.mp, c.log, c.x, c.env = idx, seed, e, comp, T, mp, log, x, env
-    c.f = expand_derivatives(e)
+    c.expand_error = None
+    try:
+        c.f = expand_derivatives(e)
+    except RecursionError:
+        raise
+    except Exception as ex:                      # _eval's first step raises: so does e(x, mapping)
+        c.f = e
+        c.expand_error = f"{type(ex).__name__}: {str(ex)[:120]}"
     c.real_call = run_real(lambda: e(x, mp, comp))
     log_direct = {}
     c.log = log_direct
@@ -802,6 +832,9 @@ def run_case(idx, seed, depth, exact_only=False, allow_known=True, build=None):
     except pyden.Unsupported as ex:
         c.expected = Outcome("unsupported", None, str(ex))
     c.known = known_class(c.f)
+    if c.expand_error and c.expand_error.startswith("ValueError: Expecting scalar arguments") \
+            and abs_with_free_index_under_derivative(e):
+        c.known.add("abs-derivative-free-index")
     return c
 
 
@@ -811,7 +844,7 @@ def describe(c):
         m = c.mp[t]
         vals[str(t)] = ("callable: " + str({str(k): str(v) for k, v in c.log.get(id(t), {}).items()})) \
             if callable(m) else str(m)
-    return {"expression": str(c.e), "expression_repr": repr(c.e)[:3000], "expanded": str(c.f)[:2000],
+    return {"expand_derivatives_error": c.expand_error, "expression": str(c.e), "expression_repr": repr(c.e)[:3000], "expanded": str(c.f)[:2000],
             "component": list(c.comp), "point": [str(v) for v in c.x], "mapping": vals,
             "case_seed": c.seed,
             "real e(x, mapping, component)": repr(c.real_call),
